@@ -434,3 +434,21 @@ func TestC18_DeepBER(t *testing.T) {
 		R.Case(true, hx.HashKey("bertrunc", in), "ber_truncated_header")
 	}
 }
+
+// FuzzC18 is the coverage-guided companion of the perturbation sweeps (thorough tier only, run by the driver):
+// the corpus starts from every valid seed of every decoder; the oracle is the same runOne (no panic, bounded allocation).
+func FuzzC18(f *testing.F) {
+	for i := range decoders {
+		for _, s := range decoders[i].seeds {
+			if len(s) <= 8192 {
+				f.Add(uint8(i), s)
+			}
+		}
+	}
+	f.Fuzz(func(t *testing.T, idx uint8, data []byte) {
+		if len(data) > 1<<16 {
+			return
+		}
+		runOne(t, &decoders[int(idx)%len(decoders)], data, "fuzz")
+	})
+}
